@@ -37,6 +37,7 @@ type Config struct {
 	Deadline  bool
 	NoCache   bool
 	Latency   bool // the server delays some replies (virtual-time runs)
+	Cluster   bool // three-node cluster and a cluster client (keys of one caller share a slot)
 	Seed      int64
 }
 
@@ -70,7 +71,14 @@ func Run(run *mon.Run, cfg Config, checkFrames bool) Stats {
 	const addr = "127.0.0.1:6379"
 	rueidis.VerifSetQueueType(cfg.Queue)
 	defer rueidis.VerifSetQueueType("")
-	srv := fakeredis.New(fakeredis.Options{ChunkWrites: true, NoLog: true, Seed: cfg.Seed}, addr)
+	addrs := []string{addr}
+	if cfg.Cluster {
+		addrs = []string{addr, "127.0.0.1:6380", "127.0.0.1:6381"}
+	}
+	srv := fakeredis.New(fakeredis.Options{ChunkWrites: true, NoLog: true, Seed: cfg.Seed}, addrs...)
+	if cfg.Cluster {
+		srv.EnableCluster()
+	}
 
 	var regMu sync.Mutex
 	registry := map[string]*issued{} // uid -> what was issued
@@ -139,7 +147,7 @@ func Run(run *mon.Run, cfg Config, checkFrames bool) Stats {
 	opt.AlwaysPipelining = cfg.Always
 	opt.MaxFlushDelay = cfg.Flush
 	opt.BlockingPoolSize = 4
-	opt.ForceSingleClient = true
+	opt.ForceSingleClient = !cfg.Cluster
 	opt.DisableRetry = true
 	client, err := rueidis.NewClient(opt)
 	if err != nil {
@@ -155,14 +163,23 @@ func Run(run *mon.Run, cfg Config, checkFrames bool) Stats {
 	if cfg.Multiplex >= 0 {
 		wires = 1 << rueidisSingleMultiplex(cfg.Multiplex)
 	}
-	for i := 0; i < 5000 && len(srv.Conns(addr)) < wires; i++ {
+	if cfg.Cluster {
+		wires *= len(addrs)
+	}
+	for i := 0; i < 20000 && len(srv.Conns("")) < wires; i++ {
 		client.Do(context.Background(), client.B().Arbitrary("PING").Keys("warm"+strconv.Itoa(i)).Build())
 	}
-	node := srv.Node(addr)
+	// the driver's own writes go to the node that owns the key
+	nodeFor := func(key string) *fakeredis.Node {
+		if cfg.Cluster {
+			return srv.Node(srv.SlotOwner(fakeredis.Slot(key)))
+		}
+		return srv.Node(addr)
+	}
 	const nkeys = 6
 	for i := 0; i < nkeys; i++ {
-		node.Exec("SET", fmt.Sprintf("shared%d", i), fmt.Sprintf("val:shared%d:0", i))
-		node.Exec("HSET", fmt.Sprintf("hash%d", i), "f", fmt.Sprintf("val:hash%d:0", i))
+		nodeFor(fmt.Sprintf("shared%d", i)).Exec("SET", fmt.Sprintf("shared%d", i), fmt.Sprintf("val:shared%d:0", i))
+		nodeFor(fmt.Sprintf("hash%d", i)).Exec("HSET", fmt.Sprintf("hash%d", i), "f", fmt.Sprintf("val:hash%d:0", i))
 	}
 
 	// background writer (invalidations) and publisher (pub/sub pushes)
@@ -178,8 +195,8 @@ func Run(run *mon.Run, cfg Config, checkFrames bool) Stats {
 			default:
 			}
 			k := v % nkeys
-			node.Exec("SET", fmt.Sprintf("shared%d", k), fmt.Sprintf("val:shared%d:%d", k, v))
-			node.Exec("HSET", fmt.Sprintf("hash%d", k), "f", fmt.Sprintf("val:hash%d:%d", k, v))
+			nodeFor(fmt.Sprintf("shared%d", k)).Exec("SET", fmt.Sprintf("shared%d", k), fmt.Sprintf("val:shared%d:%d", k, v))
+			nodeFor(fmt.Sprintf("hash%d", k)).Exec("HSET", fmt.Sprintf("hash%d", k), "f", fmt.Sprintf("val:hash%d:%d", k, v))
 			time.Sleep(200 * time.Microsecond)
 		}
 	}()
@@ -325,6 +342,24 @@ func Run(run *mon.Run, cfg Config, checkFrames bool) Stats {
 					}
 					outcome(&st, run, cfg, "DoMulti", allOK, e1, cancelled, ctx)
 					fp = "DoMulti/" + strconv.Itoa(min(n, 9))
+				case kind == 7 && !opt.DisableCache && !cfg.Cluster && rng.Intn(2) == 0: // DoCache(MGET): per-key entries shared with the GET flights of other callers
+					n := 2 + rng.Intn(3)
+					ks := make([]string, n)
+					for i := range ks {
+						ks[i] = fmt.Sprintf("shared%d", rng.Intn(nkeys))
+					}
+					res := client.DoCache(ctx, client.B().Mget().Key(ks...).Cache(), time.Minute)
+					arr, err := res.ToArray()
+					if err == nil && len(arr) != n {
+						run.Violation("wrong-result-count", "DoCache-MGET|"+cfg.Name, map[string]any{"config": cfg.String(), "keys": ks, "results": len(arr)})
+					}
+					for i := 0; err == nil && i < len(arr) && i < n; i++ {
+						if s, e := arr[i].ToString(); e != nil || !strings.HasPrefix(s, "val:"+ks[i]+":") {
+							run.Violation("wrong-reply", "DoCache-MGET|"+cfg.Name, map[string]any{"config": cfg.String(), "keys": ks, "pos": i, "got": arr[i].String()})
+						}
+					}
+					outcome(&st, run, cfg, "DoCache", err == nil, res.NonRedisError(), cancelled, ctx)
+					fp = "DoCacheMGET/" + strconv.Itoa(n)
 				case kind == 7 && !opt.DisableCache: // DoCache
 					k := fmt.Sprintf("shared%d", rng.Intn(nkeys))
 					res := client.DoCache(ctx, client.B().Get().Key(k).Cache(), time.Minute)
@@ -482,7 +517,9 @@ func outcome(st *Stats, run *mon.Run, cfg Config, kind string, ok bool, err erro
 		atomic.AddInt64(&st.OK, 1)
 	case err != nil && (err == context.Canceled || err == context.DeadlineExceeded):
 		atomic.AddInt64(&st.CtxErr, 1)
-		if !cancelled && kind != "DoCache" && kind != "DoMultiCache" {
+		if !cancelled && kind != "DoCache" && kind != "DoMultiCache" && !cfg.Deadline {
+			// (with deadlines a timed-out synchronous call breaks its connection; the re-dial runs under whichever
+			// caller's context comes first and its failure is shared with the callers queued behind it)
 			// (cached reads legitimately inherit the error of the flight owner they waited for)
 			run.Violation("ctx-error-without-cancel", kind+"|"+cfg.Name, map[string]any{"config": cfg.String(), "err": err.Error(), "connections_so_far": atomic.LoadInt64(&st.Conns)})
 		}
